@@ -477,7 +477,7 @@ fn gen_just(ch: &mut Choices, spec: &CommitteeSpec, corrupt: bool) -> (Just, Str
     }
 }
 
-fn gen_case(ch: &mut Choices, nmax: usize) -> Case {
+pub fn gen_case(ch: &mut Choices, nmax: usize) -> Case {
     let committee = gen_committee(ch, nmax);
     let corrupt = ch.chance(3, 5);
     let kind = ch.weighted(&[(4, 0), (4, 1), (2, 2), (2, 3), (1, 4), (1, 5)]);
@@ -543,7 +543,7 @@ fn build_just(j: &Just, spec: &CommitteeSpec, c: &gen::Committee) -> Option<(v2:
     })
 }
 
-fn check(case: &Case, st: &mut Stats) -> Result<(), String> {
+pub fn check(case: &Case, st: &mut Stats) -> Result<(), String> {
     let spec = &case.committee;
     let c = spec.build();
     let (gh, ep, sch) = (c.gh(), c.epoch, &c.schedule);
@@ -632,7 +632,7 @@ pub struct AddCase {
     ops: Vec<AddOp>,
 }
 
-fn gen_add_case(ch: &mut Choices, nmax: usize) -> AddCase {
+pub fn gen_add_case(ch: &mut Choices, nmax: usize) -> AddCase {
     let committee = gen_committee(ch, nmax);
     let n = committee.n();
     let off = committee.key_offset;
@@ -721,7 +721,7 @@ fn gen_add_case(ch: &mut Choices, nmax: usize) -> AddCase {
     AddCase { committee, base_vote, view, chain, ops }
 }
 
-fn check_add(case: &AddCase, st: &mut Stats) -> Result<(), String> {
+pub fn check_add(case: &AddCase, st: &mut Stats) -> Result<(), String> {
     let spec = &case.committee;
     let c = spec.build();
     let (gh, ep, sch) = (c.gh(), c.epoch, &c.schedule);
